@@ -339,7 +339,7 @@ claim("C20",
       "(Model/Coord.v, Proofs/CoordRename.v) C20_peer_addresses: the transition system commutes with every one-to-one renaming of the "
       "peer addresses - the same events from other addresses (ephemeral ports differ from run to run) are enabled exactly when the "
       "originals are, consume the world's draws in the same order, write the same files and send every connection what it was sent "
-      "before (C20_peer_addresses_observables); tied to coordinator.py by the trace-following correspondence and by playing every "
+      "before (C20_peer_addresses_observables), and the renamed state is idle exactly when the original is (C20_peer_addresses_quiescent); tied to coordinator.py by the trace-following correspondence and by playing every "
       "session a second time on the real coordinator from renamed, order-reversed peer addresses (identical answers required). The rest of the property - "
       "independence of process, hash randomisation and wall-clock time, and the reproducible configuration hash - is a runtime "
       "property no executable model exhibits; it is decided by cross-process runs: identical multi-episode probe sessions (three attackers with random start hosts and a "
